@@ -419,3 +419,60 @@ func (c *Ctx) heldAt(f *ssa.Function, at ssa.Instruction, base ssa.Value, field 
 	}
 	return true
 }
+
+// ---- handler hand-overs --------------------------------------------------------------------------------
+
+// serveHandover: a point where a function (or a closure it creates and invokes) calls Handler.Serve — as an interface
+// method call, or through a bound method value (`serve := h.Serve; …; serve(m)`). At is the instruction in the function
+// itself (the call, or the call/go of the closure in which the call happens).
+type serveHandover struct {
+	At   ssa.Instruction
+	In   ssa.Instruction
+	Fn   *ssa.Function
+	Recv ssa.Value
+	Arg  ssa.Value
+}
+
+func (c *Ctx) serveHandovers(f *ssa.Function) []serveHandover {
+	var out []serveHandover
+	for _, g := range withClosures(f) {
+		g := g
+		eachInstr(g, func(in ssa.Instruction) {
+			cc := callCommon(in)
+			if cc == nil || len(cc.Args) != 1 {
+				return
+			}
+			var recv, arg ssa.Value
+			if cc.IsInvoke() {
+				if cc.Method.Name() == "Serve" && typeName(cc.Value.Type()) == "Handler" {
+					recv, arg = cc.Value, cc.Args[0]
+				}
+			} else if mc, ok := c.Resolve(cc.Value).(*ssa.MakeClosure); ok {
+				if fn, ok := mc.Fn.(*ssa.Function); ok && fn.Synthetic != "" && fn.Name() == "Serve$bound" && len(mc.Bindings) == 1 && typeName(mc.Bindings[0].Type()) == "Handler" {
+					recv, arg = mc.Bindings[0], cc.Args[0]
+				}
+			}
+			if recv == nil {
+				return
+			}
+			at := in
+			for h := g; h != f && at != nil; h = h.Parent() {
+				var site ssa.Instruction
+				n := 0
+				eachInstr(h.Parent(), func(x ssa.Instruction) {
+					if k := callCommon(x); k != nil && !k.IsInvoke() && c.StaticCalleeOf(k) == h {
+						site = x
+						n++
+					}
+				})
+				if n != 1 {
+					at = nil
+					break
+				}
+				at = site
+			}
+			out = append(out, serveHandover{At: at, In: in, Fn: g, Recv: recv, Arg: arg})
+		})
+	}
+	return out
+}
